@@ -495,7 +495,7 @@ func scramble(i int) int { return int((uint64(i) * 0x9E3779B97F4A7C15) >> 40) }
 
 // ---- random histories ----
 
-var allBehs = []string{"tab", "str", "false", "none", "multi", "assign", "assignret", "assignsame", "module", "fail", "failonce", "req", "preq", "req", "preq", "tab"}
+var allBehs = []string{"tab", "str", "false", "none", "multi", "assign", "assignret", "assignsame", "module", "fail", "failonce", "req", "preq", "req", "preq", "tab", "peek"}
 var allSrcs = []string{"luapre", "gopre", "file", "init", "both", "luapre", "file"}
 
 func genRandom(r *rand.Rand) *Case {
